@@ -1250,19 +1250,33 @@ package main
 
 //@ func ParseMessage
 //@   sensures nn: err == nil ==> result != nil
-//@   props C11 C10
-//@   uses stream
+//@   props C11 C10 C01
+//@   uses stream hdrline
+//@   assume ghost-logs-in-step: len(rlIn) == len(rlOut) && len(rlIn) == len(rlOk)
 //@   event pmInput: RS[reader]
 //@   ensures forward-only: len(RS[reader]) <= len(old(RS[reader])) && RS[reader] == old(RS[reader])[len(old(RS[reader]))-len(RS[reader]):]
 //@   ensures other-streams: forall r int :: r != reader ==> RS[r] == old(RS[r])
 //@   ensures fresh-message: err == nil ==> fresh(result)
 //@   ensures body-is-next-bytes: err == nil ==> len(limitMarks) == len(old(limitMarks)) + 1 && len(result.body) <= len(limitMarks[len(old(limitMarks))])
 //@        && result.body == limitMarks[len(old(limitMarks))][0:len(result.body)] && RS[reader] == limitMarks[len(old(limitMarks))][len(result.body):]
+//@   ensures lines-are-consecutive: forall k int :: len(old(rlIn)) < k && k < len(rlIn) - 1 ==> rlIn[k] == afterLine(rlIn[k-1])
+//@   ensures last-line-follows: len(rlIn) > len(old(rlIn)) + 1 ==> rlIn[len(rlIn)-1] == afterLine(rlIn[len(rlIn)-2])
+//@   ensures lines-are-the-stream: forall k int :: len(old(rlIn)) <= k && k < len(rlIn) && rlOk[k] ==> rlOut[k] == lineOf(rlIn[k])
+//@   ensures line-count: err == nil ==> len(rlIn) == len(old(rlIn)) + len(result.headers) + 2
+//@   ensures ends-at-empty-line: err == nil ==> len(rlOut[len(rlOut) - 1]) == 0
+//@   ensures header-names-are-the-lines: err == nil ==> (forall j int :: 0 <= j && j < len(result.headers) ==> result.headers[j].name == hdrNameOf(rlOut[len(old(rlOut)) + 1 + j]))
+//@   ensures header-values-are-the-lines: err == nil ==> (forall j int :: 0 <= j && j < len(result.headers) ==> result.headers[j].value == anyStr(hdrValueOf(rlOut[len(old(rlOut)) + 1 + j])))
 //@   ensures body-length-declared: err == nil ==> firstIdx(result.headers, "Content-Length") >= 0 && isType(result.headers[firstIdx(result.headers, "Content-Length")].value, "string")
 //@        && atoiOk(asStr(result.headers[firstIdx(result.headers, "Content-Length")].value)) && len(result.body) == atoiVal(asStr(result.headers[firstIdx(result.headers, "Content-Length")].value))
 //@   loop 0:
 //@     invariant len(RS[reader]) <= len(old(RS[reader])) && RS[reader] == old(RS[reader])[len(old(RS[reader]))-len(RS[reader]):] && limitMarks == old(limitMarks)
 //@     invariant forall r int :: r != reader ==> RS[r] == old(RS[r])
+//@     invariant len(rlIn) == len(rlOut) && len(rlIn) == len(rlOk) && len(old(rlIn)) == len(old(rlOut)) && len(rlIn) >= len(old(rlIn))
+//@     invariant (firstLine ==> len(rlIn) == len(old(rlIn)) && len(msg.headers) == 0) && (!firstLine ==> len(rlIn) == len(old(rlIn)) + 1 + len(msg.headers))
+//@     invariant forall k int :: len(old(rlIn)) < k && k < len(rlIn) ==> rlIn[k] == afterLine(rlIn[k-1])
+//@     invariant len(rlIn) > len(old(rlIn)) ==> RS[reader] == afterLine(rlIn[len(rlIn)-1])
+//@     invariant forall k int :: len(old(rlIn)) <= k && k < len(rlIn) ==> rlOk[k] && rlOut[k] == lineOf(rlIn[k])
+//@     invariant forall j int :: 0 <= j && j < len(msg.headers) ==> msg.headers[j].name == hdrNameOf(rlOut[len(old(rlOut)) + 1 + j]) && msg.headers[j].value == anyStr(hdrValueOf(rlOut[len(old(rlOut)) + 1 + j]))
 
 //@ func (*Proxy).HandleRawMessage
 //@   srequires nn-msg: msg != nil
@@ -1377,9 +1391,12 @@ package main
 // connection will ever deliver, however it is segmented. The contracts below are functions of RS alone.
 
 //@ func readLine
-//@   props C11 C10
+//@   props C11 C10 C01
 //@   uses stream
 //@   borrowed-result reader
+//@   event rlIn: RS[reader]
+//@   revent rlOut: result
+//@   revent rlOk: err == nil
 //@   modifies RS, RU, RE
 //@   ensures line: err == nil ==> result == lineOf(old(RS[reader])) && RS[reader] == afterLine(old(RS[reader]))
 //@   ensures nothing-on-empty: old(RS[reader]) == "" ==> err != nil
